@@ -12,6 +12,8 @@ CHECKS = {
          NOTE_COMMON + "go list / goimports are assumed not to write inside the module tree (checked by the snapshots, not proved); as root, unwritable paths are produced by directories and missing parents, not permission bits.", "Coq proof (frame over gmap) + file-system differential runs", "5 C15"),
  "C12": ("proof", "Theorems (props/C12.v): for every file system and every bytes x at the output path the run result equals that on an empty path; idempotence; repair of any corruption; history invariant over arbitrary edit/run sequences. The loader is a function of the file system minus the output path by construction of Run.run; that the real loader behaves so (go list also reads the stale file) is carried by the correspondence: histories with every n-th truncation point and nine corruption kinds vs Cli.run_history.",
          NOTE_COMMON + "partial: `go list`'s reading of the stale output is runtime behaviour outside the model; it is exercised, not proved.", "Coq proof over a file-system state machine + history correspondence", "5 C12"),
+ "C19": ("proof", "Theorems (props/C19.v) over Matcher.v/Re.v (an RE2-subset parser and a derivative matcher with one-rune look-behind, Unicode tables regenerated from Go's unicode package on every run): IdentMatcher = equality / Unicode simple-fold equality for all byte strings; a PatternMatcher's answers over ANY query sequence equal those of a fresh matcher (invariant: compiled form = compile(pattern, current rule)), under the one stated hypothesis that validity does not depend on the (?i) prefix; a fresh matcher = search of the parsed expression, (?i)-prefixed when the rule is off, in the untouched path. Correspondence + oracle: exhaustive small scope over a 22-symbol alphabet incl. ſ, ς/σ, İ/ı, Kelvin sign; random regexps from the grammar and a malformed stream against regexp.Compile and (?i) semantics; rule-alternating query sequences; the Go-library functions the model re-implements (ToLower, EqualFold, Fields, QuoteMeta, IsExported) are validated first.",
+         NOTE_COMMON + "partial: that search(parse e) coincides with RE2's matching is validated against Go's regexp on the generated stream, not proved from a denotational semantics; regexps outside the Re.v subset (scripts other than L/Lu/Ll/N/Nd/Any) are counted out_of_model and only checked by the oracle.", "Coq proof (matcher state-machine invariant) + exhaustive/random differential runs against the option API", "5 C19"),
 }
 def main():
     checks=[]
